@@ -15,7 +15,8 @@ THEOREMS = [
     "Bridge.treeOf_sub", "Bridge.treeOf_children", "Bridge.treeOf_parent", "Bridge.treeOf_addr",
     "Bridge.setParent_some_refines", "Bridge.setParent_none_refines", "Bridge.setChildren_refines",
     "Bridge.delChildren_refines", "Bridge.sort_refines", "Bridge.step_refines", "Bridge.step_rej_forest",
-    "Bridge.run_refines", "Bridge.preorder_transfer", "Bridge.depth_transfer", "Bridge.depth_transfer_run",
+    "Bridge.run_refines", "Bridge.run_refines_allok", "Bridge.run_refines_unchecked", "Bridge.extend_refines_prefix",
+    "Bridge.preorder_transfer", "Bridge.depth_transfer", "Bridge.depth_transfer_run",
 ]
 PROOF_IMPORTS = ["BigtreeProofs.Properties.C01", "BigtreeProofs.Properties.Bridge"]
 RULE = ("whole operation histories on n fresh BaseNode/Node objects (user subclasses whose four documented hooks "
